@@ -396,6 +396,27 @@ func checkC19(tier string) int {
 		newMon: func(w *world.World) func(run *hist.Runner, blk *hist.Block) []mon.Finding {
 			return wrapStateful(mon.C19)
 		},
+		tune: func(cfg *drive.Cfg, i int) {
+			if i%3 == 2 {
+				// release time of one day: the blocks after the first verdict are 5 s, then two hours, then
+				// twelve hours, then a day and a half apart, with a release request after each
+				cfg.DtFn = func(h int64) int64 {
+					switch {
+					case h >= 5 && h <= 9:
+						return 5000
+					case h == 10:
+						return 2 * 3600 * 1000
+					case h == 13:
+						return 12 * 3600 * 1000
+					case h == 16:
+						return 36 * 3600 * 1000
+					case h >= 11 && h <= 18:
+						return 5000
+					}
+					return 0
+				}
+			}
+		},
 		gates: map[string]int{"ok:ALLEGATION": 2, "ok:ALLEGATION_VOTE": 4},
 		jumps: true,
 	}, tier)
